@@ -286,6 +286,12 @@ class Rest(object):
         self.kind = kind
         self.caps = PEER_KINDS[kind][1]
         self.sim = S.Sim({'remote_as': remote_as})
+        # the credentials this client uses (another suite run earlier in the same process may have configured others);
+        # set_override drops oslo.config's cached group object, and with it the running_config attribute Sim put there
+        rc = cfg.CONF.bgp.running_config
+        cfg.CONF.set_override('username', 'admin', group='rest')
+        cfg.CONF.set_override('password', 'admin', group='rest')
+        cfg.CONF.bgp.running_config = rc
         o = None
         for ev in ({'k': 'boot'}, {'k': 'connok', 'c': 0},
                    {'k': 'chunk', 'c': 0, 'hex': SG.frame(1, SG.open_body(remote_as, 90, caps=PEER_KINDS[kind][0](remote_as))).hex()},
